@@ -209,12 +209,13 @@ def _c16():
     }
 
 
-STORE_FRAMES = [H("store_basic_frames", "store", "quick", "REAL BasicGarnishData (small blocks): k0 registers, frame x, k1 registers, frame y, k2 registers (k0,k1,k2 in 0..1, x,y symbolic); pop_frame returns y then x and restores the register depth of each call; includes a nested call with an empty operand stack", cbmc_args=FIELD_SENS),
-                H("store_basic_values", "store", "quick", "REAL BasicGarnishData: value stack push / current / update / pop", cbmc_args=FIELD_SENS)]
-STORE_LISTS = [H("store_basic_list_p%d%s" % (o, u), "store", "quick" if o in (0, 3, 5) else "thorough", "REAL BasicGarnishData: list of three pairs keyed by symbols 10,20,30 inserted in permutation %d%s: length, index access in insertion order, lookup of a SYMBOLIC symbol (sorted associations + binary search)" % (o, " followed by an unkeyed item" if u else ""), cbmc_args=FIELD_SENS) for o in range(6) for u in ("", "_unkeyed")] + \
-              [H("store_simple_list_%d" % k, "store", "quick", "REAL SimpleGarnishData: a first list keyed by k0,k1, then a second list of %d items keyed by k2.. (all symbols symbolic u64): length, index access, lookup of a symbolic symbol in the second list (modulo placement + probing); no stale associations, no error, no panic on the empty list" % k, cbmc_args=FIELD_SENS) for k in range(3)] + \
-              [H("store_simple_list_unkeyed", "store", "quick", "REAL SimpleGarnishData: lookup in a list holding an unkeyed item is 'absent', not an error", cbmc_args=FIELD_SENS),
-               H("store_basic_list_index_kf", "store", "quick", "witness of the recorded finding: BasicGarnishData::get_list_item past the end is an Err", cbmc_args=FIELD_SENS)]
+STORE_FRAMES = [H("store_basic_frames_%d" % k, "store", "quick" if k in (0, 2, 5) else "thorough", "REAL BasicGarnishData (small blocks): %d register(s), frame x, %d register(s), frame y, %d register(s) (x, y symbolic); pop_frame returns y then x and restores the register depth of each call%s" % (k & 1, (k >> 1) & 1, (k >> 2) & 1, "; a call made from inside a call with an empty operand stack" if k & 3 == 0 else ""), cbmc_args=FIELD_SENS, timeout=900) for k in range(8)] + \
+               [H("store_basic_values_update", "store", "quick", "REAL BasicGarnishData: value stack push / current / update in place / pop", cbmc_args=FIELD_SENS, timeout=900),
+                H("store_basic_values_plain", "store", "thorough", "REAL BasicGarnishData: value stack push / current / pop", cbmc_args=FIELD_SENS, timeout=900)]
+STORE_LISTS = [H("store_basic_list_p%d%s" % (o, u), "store", "quick", "REAL BasicGarnishData: list of two pairs keyed by symbols 20 and 10 inserted in order %d%s: length, index access in insertion order, lookup of a SYMBOLIC symbol (sorted associations + binary search)" % (o, " followed by an unkeyed item" if u else ""), cbmc_args=FIELD_SENS, timeout=900) for o in range(2) for u in ("", "_unkeyed")] + \
+              [H("store_simple_list_%d" % k, "store", "thorough", "REAL SimpleGarnishData: a first list keyed by k0,k1, then a second list of %d items keyed by k2.. (all symbols symbolic u64): length, index access, lookup of a symbolic symbol in the second list (modulo placement + probing); no stale associations, no error, no panic on the empty list" % k, cbmc_args=FIELD_SENS, timeout=1500) for k in range(3)] + \
+              [H("store_simple_list_unkeyed", "store", "quick", "REAL SimpleGarnishData: lookup in a list holding an unkeyed item is 'absent', not an error", cbmc_args=FIELD_SENS, timeout=900),
+               H("store_basic_list_index_kf", "store", "quick", "witness of the recorded finding: BasicGarnishData::get_list_item past the end is an Err", cbmc_args=FIELD_SENS, timeout=900)]
 STORE_READBACK = [H("store_basic_readback", "store", "quick", "REAL BasicGarnishData with data block of initial size 2 (+4 per growth) and 2-cell instruction / jump blocks: interleaved adds to all three tables across several growth steps; every value reads back with the same type and content", cbmc_args=FIELD_SENS)]
 
 
@@ -293,7 +294,7 @@ def tmpl_harnesses(rows, family, prop, what):
             continue
         tier = "quick" if (quick is None or r["name"] in quick) else "thorough"
         desc = "%s: source `%s`%s — %s" % (r["name"], r["source"], (" (variant of `%s`)" % r["original"]) if r["original"] else "", what)
-        out.append(H(r["harness"], "tmpl", tier, desc, cbmc_args=FIELD_SENS, timeout=1500 if tier == "thorough" else 900, jobs_weight=2))
+        out.append(H(r["harness"], "tmpl", tier, desc, cbmc_args=FIELD_SENS, timeout=1500 if tier == "thorough" else 900, jobs_weight=1.3, shard_size=8))
     return out
 
 
